@@ -354,3 +354,18 @@ Proof.
   erewrite map_ext; [apply Permutation_refl|]. intros j. cbv beta. f_equal. lia.
 Qed.
 End Gen.
+
+(* every address the specification denotes for an IPv4 net lies inside the net *)
+Lemma net_addrs_inside n k a : ipv4_net n k -> In a (net_addrs n) -> contains n a = true /\ length a = 4%nat.
+Proof.
+  intros Hn Ha. pose proof Hn as (Hk & _). unfold net_addrs, net_addrs_from in Ha. rewrite (net_size_ipv4 n k Hn) in Ha.
+  apply in_map_iff in Ha. destruct Ha as [j [<- Hj]]. apply in_seq in Hj.
+  assert (HN : 0 <= 2 ^ (32 - k)) by (apply Z.pow_nonneg; lia).
+  set (l := zrange 1 (Z.to_nat (2 ^ (32 - k)))).
+  assert (Hperm : is_perm_1n (2 ^ (32 - k)) l).
+  { split; [apply zrange_NoDup|]. intros x. unfold l. rewrite zrange_In. lia. }
+  assert (Hi : In (Z.of_nat j + 1) l) by (unfold l; apply zrange_In; lia).
+  pose proof (ips_gen_inside n k l Hn Hperm (Z.of_nat j + 1) Hi) as H. cbv zeta in H.
+  replace (net_base n - 1 + (Z.of_nat j + 1)) with (net_base n + Z.of_nat j) in H by lia.
+  destruct H as (H1 & H2 & _). split; assumption.
+Qed.
